@@ -135,6 +135,17 @@ MObsOrd(a, b) ==
     <<[b |-> "model", panic |-> FALSE, cmp |-> ImplCmp(a, b), eq |-> IF a = b THEN 1 ELSE 0,
        bota |-> IF a = Empty THEN 1 ELSE 0, botb |-> IF b = Empty THEN 1 ELSE 0, defbot |-> 1,
        ch |-> ImplMerge(b, a, {}).ch]>>
+\* MapUnion::merge / WithBot::merge over tombstone-set values: key collision => inner merge,
+\* absent key / None receiver => LatticeFrom of the other side's value (the identity)
+NImplMerge(A, B) ==
+    {<<k, IF k \in NKeys(A) /\ k \in NKeys(B) THEN ImplMerge(NGet(A, k), NGet(B, k), {}).st
+          ELSE IF k \in NKeys(A) THEN NGet(A, k) ELSE NGet(B, k)>> : k \in NKeys(A) \cup NKeys(B)}
+MObsNLaw(a, b, c) ==
+    LET J(x, y) == NImplMerge(x, y) IN
+    <<[b |-> "model", panic |-> FALSE, ab |-> J(a, b), ba |-> J(b, a), aa |-> J(a, a),
+       abc1 |-> J(J(a, b), c), abc2 |-> J(a, J(b, c)), eqc |-> 1, eqi |-> 1, eqa |-> 1]>>
+NLaw(a, b, c) == MNLaw(a, b, c, MObsNLaw(a, b, c)) /\ UNCHANGED <<st, implbad>>
+From(a) == MFrom(a, <<[b |-> "model", panic |-> FALSE, out |-> a]>>) /\ UNCHANGED <<st, implbad>>
 Law(a, b, c) == MLaw(a, b, c, MObsLaw(a, b, c)) /\ UNCHANGED <<st, implbad>>
 Ord(a, b) == MOrd(a, b, MObsOrd(a, b)) /\ UNCHANGED <<st, implbad>>
 
@@ -183,11 +194,24 @@ LawScripts == {<<[op |-> "law", a |-> t[1], b |-> t[2], c |-> t[3]]>> :
 PairLawScripts == {<<[op |-> "law", a |-> a, b |-> b, c |-> Empty]>> : a \in WellFormed, b \in WellFormed}
 OrdScripts == {<<[op |-> "ord", a |-> a, b |-> b]>> : a \in WellFormed, b \in WellFormed}
 
+\* C04: one conversion event per well-formed value; C01/C04: compound lattices (set lattice only)
+FromScripts == {<<[op |-> "from", a |-> a]>> : a \in WellFormed}
+NonBot(K) == ValuesOver(K) \ {Empty}
+NVals1 == {{}} \cup {{<<0, v>>} : v \in NonBot({0, 1})}                      \* one key, values over 2 items
+NVals2 == {{<<k, f[k]>> : k \in S} : S \in SUBSET {0, 1}, f \in [{0, 1} -> NonBot({0})]}   \* two keys, values over 1 item
+NScript(ty, t) == <<[op |-> "nlaw", ty |-> ty, a |-> t[1], b |-> t[2], c |-> t[3]]>>
+NestedScripts ==
+    IF VARIANT # "set" THEN {}
+    ELSE {NScript("mapunion", t) : t \in NVals1 \X NVals1 \X NVals1}
+         \cup {NScript("mapunion", t) : t \in NVals2 \X NVals2 \X NVals2}
+         \cup {NScript("withbot", t) : t \in NVals1 \X NVals1 \X NVals1}
+
 GenInit ==
     /\ MInit(NRep)
     /\ st = [r \in 1..NRep |-> Empty]
     /\ implbad = {}
-    /\ script \in (Histories \cup PairScripts \cup LawScripts \cup PairLawScripts \cup OrdScripts)
+    /\ script \in (Histories \cup PairScripts \cup LawScripts \cup PairLawScripts \cup OrdScripts
+                    \cup FromScripts \cup NestedScripts)
     /\ hist = <<>>
 
 Step ==
@@ -200,7 +224,9 @@ Step ==
             [] o.op = "load" -> Load(o.r, o.live, o.tomb)
             [] o.op = "law" -> Law(o.a, o.b, o.c)
             [] o.op = "ord" -> Ord(o.a, o.b)
-       /\ hist' = Append(hist, IF o.op \in {"law", "ord"} THEN [o |-> o, live |-> {}, tomb |-> {}]
+            [] o.op = "from" -> From(o.a)
+            [] o.op = "nlaw" -> NLaw(o.a, o.b, o.c)
+       /\ hist' = Append(hist, IF o.op \in {"law", "ord", "from", "nlaw"} THEN [o |-> o, live |-> {}, tomb |-> {}]
                                ELSE [o |-> o, live |-> st'[o.r].live, tomb |-> st'[o.r].tomb])
     /\ script' = Tail(script)
 
